@@ -1322,7 +1322,12 @@ def fixup_relus_with_differing_ifm_ofm_scaling(op: Operation, arch, nng) -> Oper
 
             relu_fused_op.add_input_tensor(ifm)
             relu_fused_op.set_output_tensor(ofm)
-            relu_fused_op.set_ifm_ofm_shapes()
+            if op.ifm_shapes and op.ofm_shapes:
+                # Keep the shapes of the Relu: its ofm tensor may carry the shape of a bypassed memory only op
+                relu_fused_op.ifm_shapes = list(op.ifm_shapes)
+                relu_fused_op.ofm_shapes = list(op.ofm_shapes)
+            else:
+                relu_fused_op.set_ifm_ofm_shapes()
             op = relu_fused_op
     return op
 
